@@ -685,6 +685,12 @@ func hasGuardSite(eng *Engine, fn *ssa.Function, guards []*Guard) bool {
 						return true
 					}
 				}
+			case *ssa.MakeChan:
+				for _, g := range guards {
+					if g.Kind == "makechan" && (g.In == "" || strings.HasSuffix(funcKey(fn), "."+g.In)) {
+						return true
+					}
+				}
 			case *ssa.MapUpdate:
 				if mt, ok := in.Map.Type().Underlying().(*types.Map); ok {
 					keyName := types.TypeString(mt.Key(), func(*types.Package) string { return "" })
